@@ -277,7 +277,7 @@ func computeFacts(f *Facts, data []byte, dgs map[int][]byte, anchors []*certInfo
 		return
 	}
 	indef = indef || sd[2].indef
-	eci, _ := sd[2].kids(0)
+	eci, _ := sd[2].kidsExplicit(0, func(idx, tag int) bool { return idx == 1 && tag == 0 })
 	if len(eci) < 1 || eci[0].oid() == "" {
 		return
 	}
@@ -298,7 +298,7 @@ func computeFacts(f *Facts, data []byte, dgs map[int][]byte, anchors []*certInfo
 	var certsNode, sisNode *node
 	for _, n := range sd[3:] {
 		switch {
-		case n.isC(0) && n.cons && certsNode == nil && sisNode == nil:
+		case n.isC(0) && certsNode == nil && sisNode == nil:
 			certsNode = n
 		case n.isC(1) && sisNode == nil:
 			// crls: ignored
@@ -314,7 +314,7 @@ func computeFacts(f *Facts, data []byte, dgs map[int][]byte, anchors []*certInfo
 	// embedded certificates
 	var embedded []*certInfo
 	if certsNode != nil {
-		cs, _ := certsNode.kids(0)
+		cs, _ := certsNode.kidsAny(0)
 		for _, c := range cs {
 			embedded = append(embedded, parseCertificateNode(c))
 		}
@@ -846,12 +846,13 @@ func parseCertificateNode(n *node) *certInfo {
 	}
 	c.tbs = ks[0].full
 	c.outerAlg = ks[1].full
-	sig, unused, ok := ks[2].bitString()
-	if !ok || unused != 0 {
+	// (a non-zero unused-bits count with zero padding is tolerated: the octets are what is verified)
+	sig, _, ok := ks[2].bitString()
+	if !ok {
 		return c
 	}
 	c.sig = sig
-	t, err := ks[0].kids(0)
+	t, err := ks[0].kidsExplicit(0, func(idx, tag int) bool { return (idx == 0 && tag == 0) || tag == 3 })
 	if err != nil {
 		return c
 	}
@@ -1152,8 +1153,8 @@ func parseSPKI(spki []byte) *pubKey {
 	if !ok {
 		return nil
 	}
-	bits, unused, ok := ks[1].bitString()
-	if !ok || unused != 0 || !ks[1].isU(tagBitString) {
+	bits, _, ok := ks[1].bitString()
+	if !ok || !ks[1].isU(tagBitString) {
 		return nil
 	}
 	switch oid {
@@ -1322,7 +1323,7 @@ func parsePSSParams(alg *node) (pssParams, bool) {
 	if !params.isU(0x10) || !params.cons {
 		return p, false
 	}
-	ks, err := params.kids(0)
+	ks, err := params.kidsExplicit(0, func(idx, tag int) bool { return true })
 	if err != nil {
 		return p, false
 	}
